@@ -10,7 +10,7 @@ use std::collections::HashMap;
 
 pub const LEVEL: &str = "exploration";
 pub const EXHAUSTIVE: bool = true;
-pub const RULE: &str = "enumerated completely: every key of emojicon's emoticon table (phonetic, bare; fixed Probhat, bare), every English emoji name (phonetic) and every Bengali emoji name (fixed: Probhat and the synthetic layout, suggestions on) each bare and in 5 punctuation wrappers incl. quotes, English option both ways (the English-on context is created under ANSI and re-configured by update-engine before use), smart quotes on; thorough additionally after a warm-up word and under traditional joining. Entries a method cannot type (character outside the 94 ASCII keys / not producible by the layout) are counted and listed, not failed. Oracle: emoticon => its emoji is a candidate, and in phonetic mode the literal text too; name => wrapper'.e.wrapper' is a candidate for every emoji e of the entry, in table order relative to each other (fixed mode: the first k table emoji for the largest k the 9-candidate cap allows); non-disturbance: removing the emoji (and the raw literal) leaves exactly the list of an ANSI twin (phonetic) / a prefix of it (fixed, the cap). Non-trivial: every typeable table entry; distinct by (method, entry, wrapper, English).";
+pub const RULE: &str = "enumerated completely: every key of emojicon's emoticon table (phonetic, bare; fixed Probhat, bare), every English emoji name (phonetic) and every Bengali emoji name (fixed: Probhat and the synthetic layout, suggestions on) each bare and in 5 punctuation wrappers incl. quotes, English option both ways (the English-on context is created under ANSI and re-configured by update-engine before use), smart quotes on; thorough additionally after a warm-up word and under traditional joining. Entries a method cannot type (character outside the 94 ASCII keys / not producible by the layout) are counted and listed, not failed. Oracle: emoticon => its emoji is a candidate, and in phonetic mode the literal text too; name => wrapper'.e.wrapper' is a candidate for every emoji e of the entry, in table order relative to each other (fixed mode: the first k table emoji for the largest k the 9-candidate cap allows); non-disturbance: removing the emoji (and the raw literal) leaves exactly the list of an ANSI twin (phonetic) / a prefix of it (fixed, the cap). Non-trivial: every typeable table entry; distinct by (method, entry, wrapper, English). Plus: every emoticon typed right after EACH candidate of the previous table entry was committed (phonetic plain / English, Probhat plain / English), no finish request in between: emoji offered, phonetic literal available.";
 pub const ASSUMPTIONS: &[&str] = &[
     "emojicon::internal tables are the bundled tables",
     "the nine-candidate cap of C15 wins over 'offers all emoji' in fixed mode (pinned by riti's test_emojis)",
